@@ -230,23 +230,57 @@ func ruleSubjectDelivers() check.Rule {
 					// registration and replay
 					rvS := recvObj(info, fd)
 					registers := false
+					rawRegistered := token.NoPos
+					// the value that is registered is the subscriber this method built around the destination (and returns),
+					// not the raw destination: terminal notifications must close the subscription the caller holds
+					isBuiltSubscriber := func(e ast.Expr) bool {
+						id, ok := ast.Unparen(e).(*ast.Ident)
+						if !ok {
+							return false
+						}
+						for _, d := range m.Defs[objOf(info, id)] {
+							if call, ok := ast.Unparen(d.Expr).(*ast.CallExpr); ok && d.Expr != nil {
+								if cl := model.Callee(info, call); cl != nil {
+									if _, isCtor := m.Obj.SubscriberCtors[cl]; isCtor {
+										return true
+									}
+								}
+							}
+						}
+						return false
+					}
 					ast.Inspect(fd.Body, func(x ast.Node) bool {
 						switch y := x.(type) {
 						case *ast.AssignStmt:
-							for _, l := range y.Lhs {
+							for i, l := range y.Lhs {
 								if fs := fieldSelOf(info, l, rvS); fs != nil && fs.Sel.Name == "observer" {
 									registers = true
+									if i < len(y.Rhs) {
+										if rid, ok := ast.Unparen(y.Rhs[i]).(*ast.Ident); ok {
+											if _, isNil := info.Uses[rid].(*types.Nil); !isNil && !isBuiltSubscriber(y.Rhs[i]) {
+												rawRegistered = y.Pos()
+											}
+										}
+									}
 								}
 							}
 						case *ast.CallExpr:
 							if sel, ok := ast.Unparen(y.Fun).(*ast.SelectorExpr); ok && sel.Sel.Name == "Store" {
 								if fs := fieldSelOf(info, sel.X, rvS); fs != nil && fs.Sel.Name == "observers" {
 									registers = true
+									if len(y.Args) == 2 && !isBuiltSubscriber(y.Args[1]) {
+										rawRegistered = y.Pos()
+									}
 								}
 							}
 						}
 						return true
 					})
+					if rawRegistered != token.NoPos {
+						c.Violation(fmt.Sprintf("ro.%s.SubscribeWithContext/registers-subscriber", tname), rawRegistered, "what is stored in the observer set is not the subscriber this method built with NewSubscriber and returns: notifications bypass it, a terminal one does not close the subscription the caller holds (IsClosed stays false, Wait never returns) and the producer lock is bypassed")
+					} else if registers {
+						c.OK(fmt.Sprintf("ro.%s.SubscribeWithContext/registers-subscriber", tname), fd.Pos(), "the registered observer is the subscriber built around the destination")
+					}
 					// the removal teardown is registered after the subscriber has been stored: Add runs its argument at once on
 					// a subscription that is already closed, and a removal that runs before the store leaves the subscriber in the set
 					var storePos, addPos token.Pos
